@@ -42,6 +42,17 @@ def run(res, replay=None):
             return [off + scale * rng.range(-8, 8) / 4.0 for _ in range(3)]
         return [off + scale * rng.uniform(-1, 1) for _ in range(3)]
 
+    def almost_unit(v):
+        # normals of length 1 + delta, |delta| from 0 (normalised in floating point) to 1e-4: "is it a unit vector?" tests with a tolerance
+        # (glam's is_normalized accepts | |n|^2 - 1 | <= 2e-4) must not switch a helper to a formula that is only right for exact unit normals
+        if not rng.chance(0.35):
+            return v
+        L = nrm(fr(v))
+        if L == 0:
+            return v
+        d = rng.choice([0.0, 1e-5, -3e-5, 6e-5, -9e-5, 1e-7])
+        return [x / L * (1.0 + d) for x in v]
+
     ops = ["intersect", "project", "project_line", "volume", "area", "sphere2", "sphere3", "sphere4", "extend"]
     if replay:
         cases = [json.load(open(replay))["replay"]["case"]]
@@ -50,19 +61,19 @@ def run(res, replay=None):
         scale = rng.choice([1.0, 1.0, 1e-6, 1e6, 37.5])
         off = rng.choice([0.0, 0.0, 10.0, -1000.0]) * scale
         if op == "intersect":
-            ns = [vec() for _ in range(3)]
+            ns = [almost_unit(vec()) for _ in range(3)]
             ps = [vec(scale, off) for _ in range(3)]
             d = abs(float(dot(fr(ns[0]), cross(fr(ns[1]), fr(ns[2])))))
             if d < 1e-3 * nrm(fr(ns[0])) * nrm(fr(ns[1])) * nrm(fr(ns[2])) or any(nrm(fr(x)) == 0 for x in ns):
                 continue
             cases.append({"op": op, "args": [ns[0], ps[0], ns[1], ps[1], ns[2], ps[2]], "scale": scale, "off": off})
         elif op == "project":
-            nn = vec()
+            nn = almost_unit(vec())
             if nrm(fr(nn)) < 1e-3:
                 continue
             cases.append({"op": op, "args": [nn, vec(scale, off), vec(scale, off)], "scale": scale, "off": off})
         elif op == "project_line":
-            n0, n1 = vec(), vec()
+            n0, n1 = almost_unit(vec()), almost_unit(vec())
             c = cross(fr(n0), fr(n1))
             if nrm(c) < 1e-2 * nrm(fr(n0)) * nrm(fr(n1)) or nrm(fr(n0)) < 1e-3 or nrm(fr(n1)) < 1e-3:
                 continue
@@ -236,7 +247,7 @@ def run(res, replay=None):
         import translate_geom as TG
         try:
             gen, info = TG.gallina(os.path.join(C.REPO, "src", "geometry.rs"))
-            rc_g, out_g = C.coq_eval(gen, "C19_gen")
+            rc_g, out_g = C.coq_eval(gen, "C19_gen", timeout=300)
             axs = set(_re.findall(r"^([A-Za-z_][\w.]*)\s*$|^([A-Za-z_][\w.]*) :", out_g, flags=_re.M))
             names = {a or b for a, b in axs} - {"Axioms"}
             foreign = sorted(n for n in names if n not in C.ALLOWED_AXIOMS)
